@@ -132,3 +132,31 @@ def t1_check(chk: core.Check, texts, name: str) -> None:
     if rej:
         bad = [(texts[r["id"]], r["detail"]) for r in rej[:5]]
         raise core.MachineryError(f"T1 fails: the two formulations of the RFC 9535 syntax disagree on {len(rej)} texts, e.g. {bad}")
+
+
+def inplace_edit_records(jp, queries, env=None, extra=None, rounds: int = 6):
+    """One compiled query (rec_find caches by text) applied again and again to the SAME document object,
+    which the caller edits in place between applications: whatever the implementation remembered about
+    the object from an earlier application (keyed by identity) is now stale."""
+    from .. import impl  # noqa: PLC0415
+
+    recs = []
+    for q in queries:
+        doc = {"want": 0, "ref": [1], "cfg": {"lim": 1}, "items": [{"v": 0, "s": "ab"}, {"v": 1, "s": "b"}, {"v": 2, "s": "abc"}, [0, 1]]}
+        for k in range(rounds):
+            recs.append(impl.rec_find(jp, q, doc, env=env, extra=extra))
+            # edit in place: same objects, new content
+            doc["want"] = (doc["want"] + 1) % 3
+            doc["ref"].append(k)
+            doc["cfg"]["lim"] = k % 3
+            if k == 2:
+                del doc["cfg"]["lim"]
+            if k == 3:
+                doc["cfg"]["lim"] = 2
+                doc["items"].append({"v": doc["want"], "s": "a" * k})
+    return recs
+
+
+ROOT_QUERIES = ["$.items[?@.v == $.want]", "$.items[?@.v >= $.cfg.lim]", "$.items[?count($.ref[*]) > @.v]", "$.items[?length($.ref) == @.v]",
+                "$.items[?value($.cfg[*]) == @.v]", "$.items[?length(@.s) == length($.ref)]", "$.items[?$.cfg.lim]",
+                "$.items[?@.v == $.cfg.lim || @.v == $.want]", "$..[?@ == $.want]", "$.items[?match(@.s, 'a.*') && @.v != $.want]"]
